@@ -215,6 +215,102 @@ theorem applyRecord_novalidate (cfg : Cfg) (s s' : State) (rec : Nat) (r : Recor
   rename_i s1 h1
   simp_all [nv_contents cfg r.author rec r.contents s s1 h1]
 
+/-! ### loadRecords -/
+
+theorem linked_snoc (l : List Item) (y z : Item) :
+    linked (l ++ [y] ++ [z]) = (linked (l ++ [y]) && z.prev == some y.id) := by
+  induction l with
+  | nil => simp [linked]
+  | cons a t ih =>
+    cases t with
+    | nil => simp [linked]
+    | cons b t' =>
+      simp only [List.cons_append, linked] at ih ⊢
+      rw [ih]; simp [Bool.and_assoc]
+
+/-- a verified, linked list that ends at `z`, starts at an item without PrevId and consists of
+items `Get` returns is what the PrevId walk from `z.id` returns (`r` = the items before `z`, in
+reverse order) -/
+theorem walkUp_of_linked (get : Nat → Option Item) : ∀ (r : List Item) (z : Item) (fuel : Nat),
+    (∀ it ∈ r.reverse ++ [z], get it.id = some it) → linked (r.reverse ++ [z]) = true →
+    ((r.reverse ++ [z]).head?.bind (·.prev)) = none →
+    (r.reverse ++ [z]).length ≤ fuel → walkUp get fuel z.id = some (r.reverse ++ [z]) := by
+  intro r
+  induction r with
+  | nil =>
+    intro z fuel hget _ hroot hf
+    cases fuel with
+    | zero => simp at hf
+    | succ f =>
+      have := hget z (by simp)
+      simp only [List.reverse_nil, List.nil_append, List.head?_cons, Option.bind_some] at hroot
+      simp [walkUp, this, hroot]
+  | cons y r' ih =>
+    intro z fuel hget hl hroot hf
+    cases fuel with
+    | zero => simp at hf
+    | succ f =>
+      have hz := hget z (by simp)
+      simp only [List.reverse_cons] at hget hl hroot hf ⊢
+      rw [linked_snoc] at hl
+      simp only [Bool.and_eq_true, beq_iff_eq] at hl
+      have hrec := ih y f (fun it hit => hget it (by simp at hit ⊢; rcases hit with h | h; exact Or.inl h; exact Or.inr (Or.inl h)))
+        hl.1
+        (by
+          cases hr : r'.reverse with
+          | nil => rw [hr] at hroot; simpa using hroot
+          | cons a t => rw [hr] at hroot; simpa using hroot)
+        (by simp at hf ⊢; omega)
+      simp [walkUp, hz, hl.2, hrec]
+
+theorem exists_rev_snoc (l : List Item) (z : Item) (h : l.getLast? = some z) :
+    ∃ r : List Item, l = r.reverse ++ [z] := by
+  refine ⟨l.dropLast.reverse, ?_⟩
+  rw [List.reverse_reverse]
+  have hne : l ≠ [] := by intro hn; rw [hn] at h; cases h
+  have := List.dropLast_concat_getLast hne
+  rw [List.getLast?_eq_some_getLast hne] at h
+  injection h with h
+  rw [← h]; exact this.symm
+
+/-- **the order-index scan never decides the outcome of `build`**: whatever it returns — an error,
+leftover or foreign documents, gaps, duplicates, a wrong order — `loadRecords` yields the PrevId
+chain from the head. Hypotheses: every scanned item passed verification and is the document `Get`
+returns for its id (ids are hashes), the root has no PrevId. -/
+theorem loadRecords_eq_walk (get : Nat → Option Item) (scan : Option (List Item))
+    (rootId head fuel : Nat) (chain : List Item)
+    (hwalk : walkUp get fuel head = some chain)
+    (hver : ∀ l, scan = some l → ∀ it ∈ l, get it.id = some it)
+    (hroot : ∀ it, get rootId = some it → it.prev = none)
+    (hfuel : ∀ l, scan = some l → l.length ≤ fuel) :
+    loadRecords scan (walkUp get fuel head) rootId head = some chain := by
+  unfold loadRecords
+  cases scan with
+  | none => exact hwalk
+  | some l =>
+    simp only
+    by_cases hc : contiguous l rootId head = true
+    · simp only [hc, if_true]
+      unfold contiguous at hc
+      cases hf : l.head? with
+      | none => rw [hf] at hc; simp at hc
+      | some f =>
+        cases hz : l.getLast? with
+        | none => rw [hf, hz] at hc; simp at hc
+        | some z =>
+          rw [hf, hz] at hc
+          simp only [Bool.and_eq_true, beq_iff_eq] at hc
+          obtain ⟨⟨hfid, hzid⟩, hlink⟩ := hc
+          obtain ⟨r, hr⟩ := exists_rev_snoc l z hz
+          have hfget := hver l rfl f (List.mem_of_mem_head? hf)
+          have hfprev : f.prev = none := hroot f (hfid ▸ hfget)
+          have hw := walkUp_of_linked get r z fuel (by rw [← hr]; exact hver l rfl) (by rw [← hr]; exact hlink)
+            (by rw [← hr, hf]; simpa using hfprev) (by rw [← hr]; exact hfuel l rfl)
+          rw [hzid, hwalk] at hw
+          rw [hr]; exact hw.symm ▸ rfl
+    · simp only [hc, Bool.false_eq_true, if_false]
+      exact hwalk
+
 /-! ### the partial decode is invisible to a non-validating list -/
 
 theorem applyRkc_shrink (cfg : Cfg) (s : State) (a rec me : Nat) (rk : Rkc) (val : Bool) :
